@@ -260,7 +260,7 @@ func main() {
 				c.Exotic = true
 			} else if cr.Chance(45) {
 				// per-leaf Go types
-				t := &Typing{Mode: "mixed", Seed: cr.U64(), Dominant: numTypes[cr.Intn(len(numTypes))], Mix: 10 + cr.Intn(30)}
+				t := &Typing{Mode: "mixed", Seed: cr.U64(), Dominant: numTypes[cr.Intn(len(numTypes))], Mix: 10 + cr.Intn(30), BytesKeys: !bytesKeyPanics}
 				if cr.Chance(18) {
 					t.Mode = "nullkey"
 				}
